@@ -1194,6 +1194,7 @@ type c05State struct {
 	res   *Result
 	umask int
 	mu    sync.Mutex
+	cross []c05Cross // cases for the extraction cross-check
 }
 
 func (st *c05State) evals(n, validated int) {
@@ -2028,6 +2029,15 @@ func runC05(ctx *Ctx) *Result {
 				return res
 			}
 		}
+	}
+	// extraction cross-check: 40 of the judged snapshots, spread over the run (every scenario, all phases)
+	if n := len(st.cross); n > 0 {
+		var pick []c05Cross
+		step := n/40 + 1
+		for i := 0; i < n; i += step {
+			pick = append(pick, st.cross[i])
+		}
+		c05CrossCheckExtraction(ctx, res, st.umask, pick)
 	}
 	dist := 0
 	for k, v := range res.Distribution {
